@@ -1,4 +1,4 @@
 SPECIFICATION Spec
 CONSTANTS
   MaxT = 3
-INVARIANTS CoversStored ZeroLength DenseIffRequested NoUnreachableFirstOutput
+INVARIANTS CoversReported Rk4Step CoversStored ZeroLength DenseIffRequested NoUnreachableFirstOutput
